@@ -268,7 +268,7 @@ def apply_event(tt_mod, objs, ev):
             return []
         return res_or_self(r)
     if op == 'Transpose':
-        kw = {} if ev['all'] else {'cores': sorted(ev['cores'])}
+        kw = {} if ev['all'] else {'cores': [_np_int(c, ev) for c in sorted(ev['cores'])]}
         if kw:
             A.copy().transpose(conjugate=ev['conj'], **kw)        # the caller's list object is used twice (see _twice)
         return res_or_self(A.transpose(conjugate=ev['conj'], overwrite=ow, **kw))
@@ -308,7 +308,7 @@ def apply_event(tt_mod, objs, ev):
     if op == 'RankTranspose':
         return res_or_self(A.rank_transpose(overwrite=ow))
     if op == 'Diag':
-        lst = sorted(ev['list'])
+        lst = [_np_int(c, ev) for c in sorted(ev['list'])]
         A.copy().diag(lst)                                          # list argument used twice
         return res_or_self(A.diag(lst))
     if op == 'Squeeze':
@@ -331,7 +331,7 @@ def apply_event(tt_mod, objs, ev):
             raise Mismatch('identity', 'ortho did not return self')
         return []
     if op == 'OrthoTrunc':
-        r = ev['maxrank']
+        r = _np_int(ev['maxrank'], ev)
         if ev['which'] == 'left':
             res = A.ortho_left(max_rank=r)
         elif ev['which'] == 'right':
@@ -342,7 +342,7 @@ def apply_event(tt_mod, objs, ev):
             raise Mismatch('identity', 'ortho*(max_rank) did not return self')
         return []
     if op == 'IslOrthoTrunc':
-        caps = [np.inf if c >= 99 else c for c in ev['caps']]        # INFCAP in the spec
+        caps = [np.inf if c >= 99 else _np_int(c, ev) for c in ev['caps']]        # INFCAP in the spec
         if not ev['asInt']:
             # the caller's list is used for another train first (a rank-1 copy): the caps requested for A are what
             # the caller wrote, whatever an earlier call did with the list
@@ -363,7 +363,7 @@ def apply_event(tt_mod, objs, ev):
         if ev['thrp']:
             kw['threshold'] = ev['thrp'] / ev['thrq']
         if ev['maxrank']:
-            kw['max_rank'] = ev['maxrank']
+            kw['max_rank'] = _np_int(ev['maxrank'], ev)
         t = TT(x.copy(), **kw)
         check_trunc_error(ev, t, bounds_from_event=False)
         if ev['thrp'] and not metadata_problem(t):
@@ -398,7 +398,7 @@ def apply_event(tt_mod, objs, ev):
             raise Mismatch('type', 'build_core did not return a 4-way array')
         return [TT([core])]
     if op == 'QTT2TT':
-        nums = list(ev['nums'])
+        nums = [_np_int(c, ev) for c in ev['nums']]
         A.copy().qtt2tt(nums)                                       # list argument used twice
         return res_or_self(A.qtt2tt(nums))
     raise KeyError(op)
@@ -579,6 +579,12 @@ def svd_pinv_event(tt_mod, A, ev, objs):
     if opt['p'] and opt['ol'] and opt['orr']:
         _scaled_repr_check(A, ow, lambda B: np.asarray(B.svd(index, **kw)[1]), s, 'svd (singular values)')
     return [u, v]
+
+
+def _np_int(x, ev):
+    """integer arguments are handed over as Python ints or (for every second event, chosen by its content) as numpy.int64"""
+    k = sum(len(str(v)) for v in ev.values() if not isinstance(v, (list, dict))) + int(x)
+    return np.int64(x) if k % 2 else int(x)
 
 
 def _nonbinding_caps_check(A, op):
